@@ -609,3 +609,77 @@ def gen_C14(rng, count, tier):
         if rng.random() < 0.2:
             evs.insert(rng.randrange(1, len(evs) + 1), "stop")
         yield ("copier", " ".join(toks + evs))
+
+
+# ------------------------------------------------------------------------------------ C07 / C08
+
+import os as _os
+FSBASE = _os.path.join(_os.path.dirname(_os.path.dirname(_os.path.abspath(__file__))), ".work", "fstree")
+FSROOT = FSBASE + "/parent/root"
+PSEGS = ["in.txt", "sub", "deep.txt", ".", "..", "", "%2e", "%2E%2e", "%252e", "%252e%252e", "%2f", "%252f", "..%2f", "%2e%2e%2f", "rootx", "secret.txt",
+         "s.txt", "root", "parent", "nonexistent", "a&b<c>.txt", "a%26b%3Cc%3E.txt", ".hidden", "big.bin", "empty.txt", "..%00", "%00", "....", ". ."]
+
+
+def fs_events(req, turns=5):
+    return " ".join(["new", "feed:" + hx(req)] + ["turn"] * turns + ["ackall", "turn"])
+
+
+def root_spelling(rng):
+    return pick(rng, [FSROOT, FSROOT, FSROOT + "/", FSROOT + "/.", FSBASE + "/parent/./root", FSBASE + "/parent/rootx/../root",
+                      FSROOT + "//", FSBASE + "/parent//root"])
+
+
+def gen_C07(rng, count, tier):
+    import itertools
+    n = 0
+    # exhaustive: all paths of up to 3 segments over a reduced alphabet (quick) / 4 (thorough)
+    alpha = ["in.txt", "sub", "..", ".", "", "%2e%2e", "%252e%252e", "rootx", "secret.txt", "%2f", "nonexistent"]
+    L = 2 if tier == "quick" else 3
+    for ln in range(0, L + 1):
+        for tup in itertools.product(alpha, repeat=ln):
+            for lead in ("/", "//"):
+                if n >= count * 0.6:
+                    break
+                t = lead + "/".join(tup)
+                n += 1
+                yield ("fs", "root:%s %s" % (hx(FSROOT.encode()), fs_events(("GET %s HTTP/1.1\r\n\r\n" % t).encode())))
+    while n < count:
+        n += 1
+        segs = [pick(rng, PSEGS) for _ in range(rng.randrange(0, 7))]
+        t = pick(rng, ["/", "/", "/", "//", "/" + FSBASE + "/parent/", "//" + FSBASE.lstrip("/") + "/parent/"]) + "/".join(segs)
+        if rng.random() < 0.1:
+            t += "/"
+        yield ("fs", "root:%s %s" % (hx(root_spelling(rng).encode()), fs_events(("GET %s HTTP/1.1\r\n\r\n" % t).encode())))
+
+
+def gen_C08(rng, count, tier):
+    files = [("in.txt", 40), ("sub/deep.txt", 31), ("big.bin", 70000), ("empty.txt", 0), ("edge.bin", 65536), ("a%26b%3Cc%3E.txt", 12)]
+    for i in range(count):
+        name, size = pick(rng, files) if rng.random() < 0.9 else (pick(rng, ["", "sub", "sub/"]), 0)
+        r = rng.random()
+        hdr = None
+        if r < 0.85:
+            def num():
+                return str(pick(rng, [0, 1, 2, size - 2, size - 1, size, size + 1, size + 2, size // 2, 65535, 65536, 65537, 2**31 - 1, 2**31, 5, 39, 40, 41]))
+            k = rng.randrange(9)
+            if k < 3:
+                spec = num() + "-" + num()
+            elif k == 3:
+                spec = num() + "-"
+            elif k == 4:
+                spec = "-" + num()
+            elif k == 5:
+                spec = pick(rng, ["-", "a-b", "1-2-3", "--1", " 1-2", "1 - 2", "", "1-2 ", "-0", "0-", "0-0", "00-01"])
+            elif k == 6:
+                spec = num() + "-" + num() + "," + num() + "-" + num()
+            elif k == 7:
+                spec = "," + num() + "-" + num()
+            else:
+                spec = num() + "-" + num() + ", 3-4"
+            unit = pick(rng, ["bytes=", "bytes=", "bytes=", "bytes=", "Bytes=", "bytes =", "items=", "bytes", "bytes= "])
+            hdr = unit + spec
+        lines = ""
+        if hdr is not None:
+            lines = "\r\n%s: %s" % (pick(rng, ["Range", "range", "RANGE"]), hdr)
+        req = ("GET /%s HTTP/1.1%s\r\n\r\n" % (name, lines)).encode()
+        yield ("fs", "root:%s %s" % (hx(FSROOT.encode()), fs_events(req)))
